@@ -80,6 +80,7 @@ func cmdRun(args []string) {
 	solver := fs.String("solver", "z3-new", "z3|z3-new|cvc5")
 	maxPaths := fs.Int64("maxpaths", 0, "stop after N paths")
 	replay := fs.Bool("replay", true, "natively replay witnesses")
+	switches := fs.Int("switches", -1, "override the harness's preemptive-switch budget")
 	fs.Parse(args)
 	s, err := readSuite(*suite)
 	if err != nil {
@@ -109,6 +110,9 @@ func cmdRun(args []string) {
 	cfg.Verbose = *verbose
 	cfg.SolverKind = *solver
 	cfg.MaxPaths = *maxPaths
+	if *switches >= 0 {
+		cfg.SwitchBudget = *switches
+	}
 	res := runHarnessSpec(ld, spec, cfg)
 	printResult(res)
 	if *replay {
